@@ -90,6 +90,92 @@ def bdecode_strict(data, want_span=None):
     return v
 
 
+
+class OrderedPairs(list):
+    """a bencoded dictionary as the list of its (key, value) pairs in FILE order (bdecode_lenient / bencode_ordered)"""
+
+
+def bdecode_lenient(data, want_span=None):
+    """
+    Order-preserving decoder for metafiles "as third-party tools write them": dictionaries become OrderedPairs in file
+    order, keys need not be sorted (duplicates are kept), integers and lengths must still be well formed.  With
+    want_span (a top-level key) returns (value, (start, end)) of the FIRST occurrence of that key's value.
+    """
+    span = {}
+
+    def num(i, end_ch):
+        k = i + 1 if data[i:i + 1] == b"-" else i
+        j = k
+        while j < len(data) and 48 <= data[j] <= 57:
+            j += 1
+        if j == k or data[j:j + 1] != end_ch:
+            raise BencodeError(f"bad number at {i}")
+        return int(data[i:j]), j + 1
+
+    def val(i, depth):
+        if i >= len(data):
+            raise BencodeError("unexpected end")
+        c = data[i:i + 1]
+        if c == b"i":
+            return num(i + 1, b"e")
+        if 48 <= data[i] <= 57:
+            n, j = num(i, b":")
+            if j + n > len(data):
+                raise BencodeError(f"string overruns input at {i}")
+            return data[j:j + n], j + n
+        if c == b"l":
+            out, j = [], i + 1
+            while data[j:j + 1] != b"e":
+                v, j = val(j, depth + 1)
+                out.append(v)
+            return out, j + 1
+        if c == b"d":
+            out, j = OrderedPairs(), i + 1
+            while data[j:j + 1] != b"e":
+                if j >= len(data):
+                    raise BencodeError("unexpected end in dict")
+                k, j2 = val(j, depth + 1)
+                v, j3 = val(j2, depth + 1)
+                if depth == 0:
+                    span.setdefault(k, (j2, j3))
+                out.append((k, v))
+                j = j3
+            return out, j + 1
+        raise BencodeError(f"unexpected byte at {i}")
+
+    v, end = val(0, 0)
+    if end != len(data):
+        raise BencodeError("trailing bytes")
+    if want_span is not None:
+        return v, span.get(want_span)
+    return v
+
+
+def bencode_ordered(v):
+    """encoder that keeps the order of OrderedPairs (and sorts plain dicts): writes non-canonical files on purpose"""
+    if isinstance(v, OrderedPairs):
+        return b"d" + b"".join(bencode_ordered(k) + bencode_ordered(x) for k, x in v) + b"e"
+    if isinstance(v, dict):
+        return b"d" + b"".join(bencode_ordered(k) + bencode_ordered(v[k]) for k in sorted(v)) + b"e"
+    if isinstance(v, (list, tuple)):
+        return b"l" + b"".join(bencode_ordered(x) for x in v) + b"e"
+    if isinstance(v, bool):
+        raise TypeError("bool")
+    if isinstance(v, int):
+        return b"i%de" % v
+    if isinstance(v, str):
+        v = v.encode("utf-8", "surrogateescape")
+    return b"%d:%s" % (len(v), bytes(v))
+
+
+def plain(v):
+    """OrderedPairs -> dict (last duplicate wins, as a lenient reader sees it), recursively"""
+    if isinstance(v, OrderedPairs):
+        return {k: plain(x) for k, x in v}
+    if isinstance(v, list):
+        return [plain(x) for x in v]
+    return v
+
 def bencode(v):
     """canonical encoder (sorts keys by raw bytes); str -> utf-8"""
     if isinstance(v, bool):
